@@ -16,6 +16,7 @@ VisOk(e) == /\ Base(e.in, e.out) /\ ClosedStays(e.in, e.out)
             /\ (e.exact = 1 /\ Len(e.in) > Keep(e) => Len(e.out) = Keep(e))
             /\ IsSubseq(e.bigger, e.out)
 Ok(e) == /\ e.k = "simp"
+         /\ e.pstable = 1                           \* the previous call's result was left alone
          /\ e.inafter = e.in                         \* the harness hands in a copy; the copy it kept is intact
          /\ CASE e.alg = "dp" -> DPOk(e) [] e.alg = "radial" -> RadialOk(e) [] e.alg = "vis" -> VisOk(e) [] OTHER -> FALSE
 Init == l = 1 /\ bad = {}
